@@ -158,14 +158,21 @@ package queue
 // Next emits the message of the first generator of the first bucket - the earliest
 // timestamp in the queue - advances that generator and files it again unless its repeats
 // are exhausted; the queue invariant holds again afterwards.
+// The pop step removes exactly the emitted generator: a one-element first bucket is
+// dropped whole, otherwise only its first element goes; every other bucket stays as it was.
+//@ pred Popped(u *UpdateQueue) := (old(len(u.q[0])) == 1 ==> view(u.q) == sub(old(view(u.q)), 1, old(len(u.q))))
+//@   && (old(len(u.q[0])) > 1 ==> len(u.q) == old(len(u.q)) && view(u.q[0]) == sub(old(view(u.q[0])), 1, old(len(u.q[0])))
+//@        && (forall i int :: 1 <= i && i < len(u.q) ==> u.q[i] == old(u.q[i]) && view(u.q[i]) == old(view(u.q[i]))))
 //@ func (*UpdateQueue).Next
 //@   props C20 C12
+//@   assert at call (*UpdateQueue).addValue#0: [only-the-emitted-generator-was-removed C20] Popped(u) && arg1 == old(u.q[0][0])
 //@   arith wrap
 //@   requires QInv(u)
 //@   modifies u.q, u.latest, u.duration, heap(value.v), heap(fpb.Value.Timestamp), heap([][]*value), heap([]*value), heap(fpb.Value.Repeat), heap(fpb.Timestamp.Timestamp), heap(fpb.IntValue.Value), heap(fpb.UintValue.Value), heap(fpb.DoubleValue.Value),
 //@     heap(fpb.StringValue.Value), heap(fpb.BoolValue.Value), heap(fpb.StringListValue.Value), heap(fpb.IntList.Options), heap(fpb.UintList.Options), heap(fpb.DoubleList.Options), heap(fpb.StringList.Options), heap(fpb.BoolList.Options),
 //@     heap([]int64), heap([]uint64), heap([]float64), heap([]string), heap([]bool)
 //@   ensures [queue-stays-ordered C20] res1 == nil ==> QInv(u)
+//@   ensures [exhausted-generator-is-dropped-alone C20] old(len(u.q)) > 0 && res1 == nil && old(u.q[0][0].v.Repeat) == 1 ==> Popped(u)
 //@   ensures [exhausted-queue-returns-nothing C20] old(len(u.q)) == 0 ==> res0 == nil && res1 == nil
 //@   ensures [earliest-first C20] old(len(u.q)) > 0 && res1 == nil ==> res0 == box(old(u.q[0][0].v))
 //@   ensures [emitted-message-left-alone C20] old(len(u.q)) > 0 && res1 == nil ==> old(u.q[0][0].v).Repeat == old(u.q[0][0].v.Repeat) && old(u.q[0][0].v.Timestamp).Timestamp == old(u.q[0][0].v.Timestamp.Timestamp)
